@@ -371,6 +371,24 @@ def more_foveation(ctx):
                                   % (mode, equi, centre, float((out - ref).abs().max()) if out.shape == ref.shape else float('nan')), rec,
                                   {'fn': 'blur', 'what': 'moving_gaze', 'equi': equi, 'mode': mode})
                     break
+    # ---- ONE gaze list object that the caller updates in place between calls (an eye tracker writing into `gaze[0]`, `gaze[1]`): each blur is the blur a new
+    # object gives for the current contents of the list
+    from odak.learn.perception.radially_varying_blur import RadiallyVaryingBlur as RVBg
+    for equi_ in (False, True):
+        gl = [0.7, 0.6] if not equi_ else [0.7, 0.3]
+        ob_ = RVBg()
+        img_g = torch.rand(1, 3, 32, 64, generator=torch.Generator().manual_seed(ctx.seed + 19))
+        for step_, (g0, g1) in enumerate(((0.7, 0.6), (0.1, 0.6), (0.1, 0.2), (0.9, 0.9), (0.9, 0.9), (0.3, 0.3)) if not equi_ else ((0.7, 0.3), (-0.5, 0.3), (-0.5, -0.4), (2.0, 0.1))):
+            gl[0], gl[1] = g0, g1
+            ctx.case(('gaze_list_in_place', equi_, step_), True)
+            ctx.count('blur/one gaze list updated in place')
+            out_ = ob_.blur(img_g, 0.2, 0.2, 0.7, gl, 'quadratic', equi_)
+            ref_ = RVBg().blur(img_g, 0.2, 0.2, 0.7, [g0, g1], 'quadratic', equi_)
+            if not torch.allclose(out_, ref_, atol=1e-6):
+                ctx.violation('RadiallyVaryingBlur.blur (equi=%s): after the caller updated its gaze list in place to %s the blur differs from the blur of a new object for that '
+                              'gaze by %.3g: the foveation map of the previous gaze is still in use' % (equi_, [g0, g1], float((out_ - ref_).abs().max())),
+                              {'fn': 'blur', 'equi': equi_, 'gaze': [g0, g1], 'step': step_, 'gaze_list_in_place': True}, {'fn': 'blur', 'what': 'gaze_list_in_place', 'equi': equi_})
+                break
     # ---- the foveation plumbing applied to a float32 image gives the same result whatever global settings of torch are in force (default dtype float64,
     # grad mode off); each entry returns under these settings on the unchanged tree
     from ..lib import settings as ST
